@@ -691,8 +691,11 @@ def seq_form(ex, e, depth=0):
         r = seq_form(ex, o.value, depth + 1)
         return None if r is None else (r[0], r[1], not r[2])
     k = ex.kind(o)
-    if k == "call":
+    if k is None and isinstance(o, ast.Call) and not o.keywords:       # a call written inside a comprehension (kept as syntax)
+        k, c = "call", o
+    elif k == "call":
         c = ex.origin(o)
+    if k == "call":
         t = au.call_tail(c)
         if t in ("list", "tuple") and len(c.args) == 1:
             return seq_form(ex, c.args[0], depth + 1)
